@@ -798,6 +798,34 @@ func checkC13E2E(c *Ctx) {
 			return
 		}
 	}
+	// ---- requests on a PLAINTEXT connection that the connection's own framing of plaintext requests cannot frame: a
+	// pairing request with a chunked body (legal HTTP, unknown length), a header that is no HTTP, a header that never
+	// ends. Each is answered with an HTTP response (an error) — not with a connection that is closed without a word
+	for _, pc := range []struct{ desc, raw string }{
+		{"POST /pair-verify with Transfer-Encoding: chunked (a well-formed start request)", "POST /pair-verify HTTP/1.1\r\nHost: acc.local\r\nContent-Type: application/pairing+tlv8\r\nTransfer-Encoding: chunked\r\n\r\n25\r\n\x06\x01\x01\x03\x20" + strings.Repeat("\x09", 32) + "\r\n0\r\n\r\n"},
+		{"a request line that is no HTTP", "PAIR me now\r\n\r\n"},
+		{"a header field without a colon", "POST /pair-setup HTTP/1.1\r\nHost acc.local\r\n\r\n"},
+	} {
+		cn, err := net.DialTimeout("tcp", "127.0.0.1:"+acc.port, 2*time.Second)
+		if err != nil {
+			c.Violate("accessory does not accept connections any more", id, pc.desc, "connect", err.Error())
+			return
+		}
+		cn.Write([]byte(pc.raw))
+		cn.SetReadDeadline(time.Now().Add(3 * time.Second))
+		buf := make([]byte, 256)
+		n, rerr := cn.Read(buf)
+		cn.Close()
+		desc := "tcp plaintext connection: " + pc.desc
+		c.Count(desc, true, "e2e:plain-unframeable")
+		if n == 0 || !bytes.HasPrefix(buf[:n], []byte("HTTP/1.")) {
+			c.Violate("remote input is answered by a dropped connection instead of a response", id, map[string]interface{}{"scenario": desc, "request": trunc(pc.raw, 200)}, "an HTTP response (an error)", fmt.Sprintf("%d bytes read, %v", n, rerr))
+		}
+		if !acc.Alive() {
+			c.Violate("remote input ends the accessory process", id, desc, "accessory keeps serving", "process exited")
+			return
+		}
+	}
 	// ---- an event that is kept back while a request of its connection is under way: controller 1 subscribes, sends the
 	// header of a request and withholds the body; controller 2 changes the value; controller 1 sends the body. Both get their
 	// answers, controller 1 its event, and the value can be written again afterwards (nothing is wedged)
